@@ -1644,8 +1644,16 @@ class Processor:
             if append_node:
                 updated_coords.append(deepest_lhs)
                 rem_idx += 1
+        # Remove matched key-value pairs from a copy of each result Hash; the
+        # source document must never be changed by merely querying it.
+        copied_idxs = set()
         for idx, key in rem_dels:
-            del updated_coords[idx].deepest_node_coord.node[key]
+            result_nc = updated_coords[idx].deepest_node_coord
+            if idx not in copied_idxs:
+                copied_idxs.add(idx)
+                result_nc.node = result_nc.node.copy()
+            if key in result_nc.node:
+                del result_nc.node[key]
 
         self.logger.debug((
             "Resulting data:"),
